@@ -39,6 +39,39 @@ Fixpoint sort (l : list str) : list str :=
   | x :: l' => insert_sorted x (sort l')
   end.
 
+(* sorted(l, key=...) in general: a stable insertion sort on any comparison.  Elements that compare equal both ways keep
+   their input order (Python's sort is stable), so the result is canonical only for antisymmetric comparisons. *)
+Fixpoint ginsert {A} (leb : A -> A -> bool) (x : A) (l : list A) : list A :=
+  match l with
+  | [] => [x]
+  | y :: l' => if leb x y then x :: l else y :: ginsert leb x l'
+  end.
+Fixpoint gsort {A} (leb : A -> A -> bool) (l : list A) : list A :=
+  match l with
+  | [] => []
+  | x :: l' => ginsert leb x (gsort leb l')
+  end.
+
+(* lang/html/__init__.py _natural_sort: key = digit runs as integers, text case-folded.  Model of the key: ASCII lower case
+   and leading zeros of digit runs dropped (what makes unit7/unit07 and Abc/abc tie; the integer-vs-text ORDER of the real key
+   is not modelled, only which names tie). *)
+Definition is_digit (c : N) : bool := (48 <=? c) && (c <=? 57).
+Definition lower (c : N) : N := if (65 <=? c) && (c <=? 90) then c + 32 else c.
+Fixpoint natkey_aux (prev_digit : bool) (s : str) : str :=
+  match s with
+  | [] => []
+  | c :: r =>
+      let next_digit := match r with d :: _ => is_digit d | [] => false end in
+      if (c =? 48) && negb prev_digit && next_digit then natkey_aux false r
+      else lower c :: natkey_aux (is_digit c) r
+  end.
+Definition natkey (s : str) : str := natkey_aux false s.
+
+(* comparison of sorted(key=k) without tie-breaker, and with the exact name as tie-breaker (key = (k x, x)) *)
+Definition key_leb (k : str -> str) (x y : str) : bool := str_leb (k x) (k y).
+Definition pair_leb (k : str -> str) (x y : str) : bool :=
+  if str_eqb (k x) (k y) then str_leb x y else str_leb (k x) (k y).
+
 Fixpoint join (sep : str) (l : list str) : str :=
   match l with
   | [] => []
@@ -91,6 +124,7 @@ Record cfg := {
   c_prefer_sys : bool;            (* prefer_system_includes: <p> instead of "p" *)
   c_support_incs : list str;      (* serialization support headers as include paths, unquoted *)
   c_support_files : list path;    (* files written by the SupportGenerator *)
+  c_user_templates : bool;        (* --templates / --support-templates directories given (they live next to the inputs) *)
 }.
 
 (* ---------------------------------------------------------------------------------------------- *)
@@ -142,7 +176,8 @@ Inductive akind :=
 | KCwd
 | KPlatform        (* nunavut.platform_version: its ambient fields are gated in Python (sf_platform_gated) *)
 | KNsIter          (* get_nested_namespaces() in a template; "gated" here means: passed through a sort filter *)
-| KIncUnsorted.    (* includes/imports filter called with an explicit sort argument *)
+| KIncUnsorted     (* includes/imports filter called with an explicit sort argument *)
+| KTmplSets.       (* nunavut.template_sets: ambient only if get_template_sets reports file-system paths (sf_template_sets_pure) *)
 
 Inductive tgroup := GType | GNs | GSupport.
 
@@ -155,17 +190,20 @@ Record src_facts := {
   sf_platform_gated : bool;    (* _create_platform_version: everything but python_version under `if embed_auditing_info` *)
   sf_clock_only_now_utc : bool;(* the only clock read is `self._env.now_utc = datetime.datetime.utcnow()` *)
   sf_audit_threaded : bool;    (* generate_all passes embed_auditing_info to update_nunavut_globals, which sets the flag *)
+  sf_natsort_total : bool;     (* html _natural_sort: the sort key ends in the exact name (ties broken), see gen_sorts *)
+  sf_template_sets_pure : bool;(* DSDLTemplateLoader.get_template_sets reports package names/versions only, no file-system path *)
   sf_gzip_mtime_fixed : bool;  (* py filter_pickle: gzip.compress(..., mtime=0) -- the gzip header carries no clock (F-PY-GZIP) *)
 }.
 
 Definition src_facts_ok (f : src_facts) : bool :=
   sf_inc_sorted f && sf_imports_sorted f && sf_templates_sorted f && sf_platform_gated f
-  && sf_clock_only_now_utc f && sf_audit_threaded f && sf_gzip_mtime_fixed f.
+  && sf_clock_only_now_utc f && sf_audit_threaded f && sf_gzip_mtime_fixed f
+  && sf_natsort_total f && sf_template_sets_pure f.
 
 Definition kind_eqb (a b : akind) : bool :=
   match a, b with
   | KClock, KClock | KAbsSrc, KAbsSrc | KPickle, KPickle | KCwd, KCwd | KPlatform, KPlatform
-  | KNsIter, KNsIter | KIncUnsorted, KIncUnsorted => true
+  | KNsIter, KNsIter | KIncUnsorted, KIncUnsorted | KTmplSets, KTmplSets => true
   | _, _ => false
   end.
 Definition group_eqb (a b : tgroup) : bool :=
@@ -177,7 +215,7 @@ Definition ungated (tbl : list site) (l : lang) (k : akind) : bool :=
 
 (* a use site is harmless when it is gated, or when what it shows is not ambient *)
 Definition site_ok (f : src_facts) (s : site) : bool :=
-  s_gated s || match s_kind s with KPlatform => sf_platform_gated f | _ => false end.
+  s_gated s || match s_kind s with KPlatform => sf_platform_gated f | KTmplSets => sf_template_sets_pure f | _ => false end.
 
 (* the one ungated ambient use the unchanged tree has (known finding F-PY-PICKLEPATH) *)
 Definition is_py_pickle (s : site) : bool :=
@@ -188,6 +226,11 @@ Definition lang_clean (f : src_facts) (tbl : list site) (l : lang) : bool :=
 
 Definition lang_clean_but_pickle (f : src_facts) (tbl : list site) (l : lang) : bool :=
   forallb (fun s => negb (lang_eqb (s_lang s) l) || site_ok f s || is_py_pickle s) tbl.
+
+(* sorted()/list.sort() calls that take a key= : canonical only if the key has a tie-breaker (SortKeyed fact) *)
+Inductive sort_site :=
+| SortHtmlNatural     (* lang/html/__init__.py _natural_sort: sorted(instance, key=natural_sort_key) *)
+| SortUnknown.
 
 (* ambient reads in the Python sources *)
 Inductive read_kind := RClock | RCwd | RResolve | REnviron | RPlatform | RRandom.
@@ -242,6 +285,10 @@ Inductive item := INs (n : nsname) | ITy (d : tydecl) | ISup (p : path).
 Record audit := { a_clock : N; a_abs : path }.
 (* header lines that show ambient data *)
 Inductive hval := HClock (t : N) | HPath (p : path).
+
+(* the order in which templates see nested namespaces when they sort them (html: natural_sort_namespace) *)
+Definition nat_leb (f : src_facts) : str -> str -> bool :=
+  if sf_natsort_total f then pair_leb natkey else key_leb natkey.
 
 Section Run.
   Variable B : Type.
@@ -334,6 +381,8 @@ Section Run.
          (* platform_version: stands for host data (build, compiler, platform string) when not gated in Python *)
          | KPlatform => if c_embed_audit c || negb (sf_platform_gated sf) then Some (HPath (e_abs e)) else None
          | KNsIter | KIncUnsorted => None
+         (* template_sets: package name + version, plus the resolved template directories if the loader reports them *)
+         | KTmplSets => if c_user_templates c && negb (sf_template_sets_pure sf) then Some (HPath (e_abs e)) else None
          end.
 
   Definition header (e : env) (c : cfg) (it : item) : list (option hval) :=
@@ -346,7 +395,7 @@ Section Run.
   Definition nested_view (e : env) (c : cfg) (I : list tydecl) (it : item) : list nsname :=
     match it with
     | INs n => if ns_sorted_in_templates c
-               then map (fun s => [s]) (sort (map ns_str (nested e I n)))
+               then map (fun s => [s]) (gsort (nat_leb sf) (map ns_str (nested e I n)))
                else nested e I n
     | _ => []
     end.
@@ -389,6 +438,11 @@ Definition shuffle_rev (A : Type) (_ : N) (_ : A -> str) (l : list A) : list A :
 Definition shuffle_rot (A : Type) (_ : N) (_ : A -> str) (l : list A) : list A :=
   match l with [] => [] | x :: l' => l' ++ [x] end.
 
+(* reverse only at the iteration of _nested_namespaces *)
+Definition shuffle_rev2 (A : Type) (site : N) (_ : A -> str) (l : list A) : list A := if site =? 2 then rev l else l.
+Lemma shuffle_rev2_perm A s (k : A -> str) l : Permutation l (shuffle_rev2 A s k l).
+Proof. unfold shuffle_rev2. destruct (s =? 2); [apply Permutation_rev|apply Permutation_refl]. Qed.
+
 Lemma shuffle_id_perm A s (k : A -> str) l : Permutation l (shuffle_id A s k l).
 Proof. apply Permutation_refl. Qed.
 Lemma shuffle_rev_perm A s (k : A -> str) l : Permutation l (shuffle_rev A s k l).
@@ -400,6 +454,7 @@ Definition mk_env (clock : N) (cwd abs : path) (which : N) : env :=
   match which with
   | 0 => {| e_clock := clock; e_cwd := cwd; e_abs := abs; e_shuffle := shuffle_id; e_shuffle_perm := shuffle_id_perm |}
   | 1 => {| e_clock := clock; e_cwd := cwd; e_abs := abs; e_shuffle := shuffle_rev; e_shuffle_perm := shuffle_rev_perm |}
+  | 3 => {| e_clock := clock; e_cwd := cwd; e_abs := abs; e_shuffle := shuffle_rev2; e_shuffle_perm := shuffle_rev2_perm |}
   | _ => {| e_clock := clock; e_cwd := cwd; e_abs := abs; e_shuffle := shuffle_rot; e_shuffle_perm := shuffle_rot_perm |}
   end.
 
@@ -479,7 +534,17 @@ Definition tbl_gated_only : list site :=
 
 Definition facts_all_true : src_facts :=
   {| sf_inc_sorted := true; sf_imports_sorted := true; sf_templates_sorted := true; sf_platform_gated := true;
-     sf_clock_only_now_utc := true; sf_audit_threaded := true; sf_gzip_mtime_fixed := true |}.
+     sf_clock_only_now_utc := true; sf_audit_threaded := true; sf_natsort_total := true; sf_template_sets_pure := true; sf_gzip_mtime_fixed := true |}.
+Definition facts_natsort_ties : src_facts :=
+  {| sf_inc_sorted := true; sf_imports_sorted := true; sf_templates_sorted := true; sf_platform_gated := true;
+     sf_clock_only_now_utc := true; sf_audit_threaded := true; sf_natsort_total := false; sf_template_sets_pure := true;
+     sf_gzip_mtime_fixed := true |}.
+Definition facts_tmplsets_paths : src_facts :=
+  {| sf_inc_sorted := true; sf_imports_sorted := true; sf_templates_sorted := true; sf_platform_gated := true;
+     sf_clock_only_now_utc := true; sf_audit_threaded := true; sf_natsort_total := true; sf_template_sets_pure := false;
+     sf_gzip_mtime_fixed := true |}.
+Definition tbl_tmplsets : list site :=
+  [ {| s_lang := LCpp; s_group := GType; s_kind := KTmplSets; s_gated := false; s_line := 34 |} ].
 Definition facts_inc_unsorted : src_facts :=
   {| sf_inc_sorted := false; sf_imports_sorted := true; sf_templates_sorted := true; sf_platform_gated := true;
-     sf_clock_only_now_utc := true; sf_audit_threaded := true; sf_gzip_mtime_fixed := true |}.
+     sf_clock_only_now_utc := true; sf_audit_threaded := true; sf_natsort_total := true; sf_template_sets_pure := true; sf_gzip_mtime_fixed := true |}.
